@@ -1457,3 +1457,8 @@ func run(c Case) *vh.Violation {
 func TestProp(t *testing.T) {
 	vh.Main(t, vh.Check[Case]{Gen: gen, Run: run})
 }
+
+// FuzzProp: the same generator and oracle under Go's native coverage-guided fuzzer (thorough tier).
+func FuzzProp(f *testing.F) {
+	vh.FuzzMain(f, vh.Check[Case]{Gen: gen, Run: run})
+}
